@@ -8,7 +8,7 @@
 Require Import ZArith List Bool.
 Import ListNotations.
 Local Open Scope Z_scope.
-From EphVerif Require Import lib.Bytes gen.Constants_control.
+From EphVerif Require Import lib.Bytes gen.Constants_control model.Sha256Model model.PowModel model.FilenameModel.
 
 (* ================================================================ C29: response format *)
 Definition LF : Z := 10.  Definition CR : Z := 13.  Definition BSL : Z := 92.  Definition COLON : Z := 58.
@@ -181,6 +181,67 @@ Definition rl_step (configured : option (list Z)) (st : rl_state) (dt kind remot
     let '(ok, h) := allow fetch_rate_window fetch_rate_limit (bget id (rl_fetch st)) now in
     ({| rl_now := now; rl_store := rl_store st; rl_fetch := bset id h (rl_fetch st) |}, ok).
 
+(* ================================================================ C28: STORE admission of one request *)
+(* parse_uint64: std::from_chars over the whole text, base 10, into a uint64_t (no sign, no blanks, no overflow) *)
+Definition is_digit (c : Z) : bool := (48 <=? c) && (c <=? 57).
+Fixpoint digits_value (acc : Z) (s : list Z) : option Z :=
+  match s with
+  | [] => Some acc
+  | c :: r => if is_digit c then digits_value (acc * 10 + (c - 48)) r else None
+  end.
+Definition parse_u64 (s : list Z) : option Z :=
+  match s with
+  | [] => None
+  | _ => match digits_value 0 s with
+         | Some v => if v <? 18446744073709551616 then Some v else None
+         | None => None
+         end
+  end.
+
+Record store_cfg := mkStoreCfg { sc_pow : Z; sc_min_ttl : Z; sc_max_ttl : Z; sc_default_ttl : Z; sc_cap : Z }.
+
+(* outcome codes: 0 OK_STORE, 1 ERR_CONTROL_PAYLOAD_LENGTH, 2 ERR_CONTROL_PAYLOAD_TOO_LARGE, 3 ERR_CONTROL_PAYLOAD_TRUNCATED,
+   4 ERR_STORE_PAYLOAD_REQUIRED, 5 ERR_STORE_TTL_INVALID, 6 ERR_STORE_TTL_OUT_OF_RANGE, 7 ERR_STORE_POW_REQUIRED,
+   8 ERR_STORE_POW_INVALID *)
+Definition store_checks (cfg : store_cfg) (payload : list Z) (ttl path pow : option (list Z)) : Z :=
+  let ttl_v := match ttl with
+               | None => Some (sc_default_ttl cfg)
+               | Some s => match parse_u64 s with
+                           | None => None
+                           (* std::chrono::seconds(uint64_t): the count is a signed 64-bit integer *)
+                           | Some v => Some (if v <? 9223372036854775808 then v else v - 18446744073709551616)
+                           end
+               end in
+  match ttl_v with
+  | None => 5
+  | Some t =>
+      if (t <? sc_min_ttl cfg) || (sc_max_ttl cfg <? t) then 6
+      else if sc_pow cfg <=? 0 then 0
+      else match pow with
+           | None => 7
+           | Some s => match parse_u64 s with
+                       | None => 8
+                       | Some nonce =>
+                           let fname := match path with Some p => hint_sanitize p | None => [] end in
+                           if store_pow_valid (sha256 payload) (zlen payload) fname nonce (sc_pow cfg) then 0 else 8
+                       end
+           end
+  end.
+
+(* parse_request (the declared length is checked against the cap BEFORE any body byte is read) followed by handle_store *)
+Definition store_admission (cfg : store_cfg) (declared : option (list Z)) (body : list Z) (ttl path pow : option (list Z)) : Z :=
+  match declared with
+  | None => 4
+  | Some s =>
+      match parse_u64 s with
+      | None => 1
+      | Some n =>
+          if sc_cap cfg <? n then 2
+          else if zlen body <? n then 3
+          else store_checks cfg (firstn (Z.to_nat n) body) ttl path pow
+      end
+  end.
+
 (* ================================================================ wire *)
 Fixpoint read_fields (n : nat) (l : list Z) : list field * list Z :=
   match n with
@@ -237,4 +298,11 @@ Definition run (input : list Z) : list Z :=
   else if mode =? 4 then   (* C28 *)
     let '(configured, l) := r_opt l in
     rl_run configured (length l) {| rl_now := 1000; rl_store := []; rl_fetch := [] |} l
+  else if mode =? 6 then   (* C28: admission of one STORE *)
+    let '(d, l) := w_next l in let '(mn, l) := w_next l in let '(mx, l) := w_next l in
+    let '(df, l) := w_next l in let '(cap, l) := w_next l in
+    let '(declared, l) := r_opt l in let '(body, l) := w_bytes l in
+    let '(ttl, l) := r_opt l in let '(path, l) := r_opt l in let '(pow, _) := r_opt l in
+    let code := store_admission (mkStoreCfg d mn mx df cap) declared body ttl path pow in
+    [code; if code =? 0 then 1 else 0]   (* the node holds the chunk exactly when the STORE was admitted *)
   else [-1].
